@@ -154,6 +154,40 @@ func judgeC09(c c09Case) (string, string) {
 		if k, m := compareWalk("WalkDir", got, want); k != "" {
 			return k, m
 		}
+		// the same directory reached through a symlink as the last path component
+		lnk := dir + ".lnk"
+		os.Remove(lnk)
+		if err := os.Symlink(dir, lnk); err == nil {
+			defer os.Remove(lnk)
+			got, err = collect(func(fn gofs.WalkDirFunc) error { return fsutil.WalkDir(ctx, lnk, nil, fn) })
+			if err != nil {
+				return "walk-failed", "through a symlinked root: " + err.Error()
+			}
+			if k, m := compareWalk("WalkDir(symlink to the root)", got, want); k != "" {
+				return "symlinked-root-" + k, m
+			}
+		}
+		// a filter that hides one name of a hard-link group: the first REPORTED member is the file
+		for _, n := range snap {
+			if n.HL == 0 {
+				continue
+			}
+			got, err = collect(func(fn gofs.WalkDirFunc) error {
+				return fsutil.WalkDir(ctx, dir, &fsutil.FilterOpt{ExcludePatterns: []string{n.Path}}, fn)
+			})
+			if err != nil {
+				return "walk-failed", "filtered: " + err.Error()
+			}
+			var rest []*types.Stat
+			for _, st := range want {
+				if st.Path != n.Path {
+					rest = append(rest, st)
+				}
+			}
+			if k, m := compareWalk(fmt.Sprintf("WalkDir(exclude %q)", n.Path), got, rerootLinks(rest)); k != "" {
+				return "filtered-" + k, m
+			}
+		}
 		// FS.Walk of the root and of every sub-target
 		fs, err := fsutil.NewFS(dir)
 		if err != nil {
